@@ -289,7 +289,8 @@ impl ops::Neg for Value {
 
     fn neg(self) -> Self::Output {
         let a = f64::try_from(&self).unwrap();
-        Value::Number(0f64 - a)
+        // IEEE 754 negation: `0 - a` gives +0 for a = +0 (XPath 1.0 3.5: `1 div -0` is -Infinity)
+        Value::Number(-a)
     }
 }
 
